@@ -45,13 +45,15 @@
 (***************************************************************************)
 EXTENDS Integers, Sequences, FiniteSets, TLC, Rat
 
-(* TLC evaluates the arguments of its Java-implemented operators (Append,   *)
-(* \o, Len, ToJson, ..) lazily: a function constructor handed to them stays *)
-(* an unevaluated closure whose body is re-evaluated at every application.  *)
-(* Push/Unshift build sequences with function constructors only, which are  *)
-(* evaluated eagerly; this keeps the recursions below linear.               *)
-Push(s, e)    == LET k == Len(s) IN [r \in 1..(k + 1) |-> IF r <= k THEN s[r] ELSE e]
-Unshift(e, s) == LET k == Len(s) IN [r \in 1..(k + 1) |-> IF r = 1 THEN e ELSE s[r - 1]]
+(* TLC represents a function constructor [i \in S |-> e] as an unevaluated  *)
+(* closure: every application f[i] evaluates e again, and closures nested   *)
+(* in recursions multiply that cost.  Tup(f, n) = SubSeq(f, 1, n) is the    *)
+(* identity on sequences of length n; TLC implements it by evaluating every *)
+(* element once and storing a tuple.  All tables below are built with it -  *)
+(* it changes no value, only the cost of the evaluation (about 15x).        *)
+Tup(f, n) == SubSeq(f, 1, n)
+Push(s, e)    == LET k == Len(s) IN Tup([r \in 1..(k + 1) |-> IF r <= k THEN s[r] ELSE e], k + 1)
+Unshift(e, s) == LET k == Len(s) IN Tup([r \in 1..(k + 1) |-> IF r = 1 THEN e ELSE s[r - 1]], k + 1)
 
 RECURSIVE SumInts(_, _, _)
 SumInts(f, lo, hi) == IF lo > hi THEN 0 ELSE f[lo] + SumInts(f, lo + 1, hi)
@@ -74,19 +76,19 @@ FirstArgMax(f, lo, hi, mx) == IF lo >= hi \/ f[lo] = mx THEN lo ELSE FirstArgMax
 StartSet(M) == IF M.start = {} THEN 1..M.m ELSE M.start
 FinalSet(M) == IF M.final = {} THEN 1..M.m ELSE M.final
 
-PiRaw(M) == [i \in 1..M.m |-> IF i \in StartSet(M) THEN M.pi[i] ELSE 0]
-TfRaw(M) == [i \in 1..M.m |-> [j \in 1..M.m |-> IF j \in FinalSet(M) THEN M.tr[i][j] ELSE 0]]
+PiRaw(M) == Tup([i \in 1..M.m |-> IF i \in StartSet(M) THEN M.pi[i] ELSE 0], M.m)
+TfRaw(M) == Tup([i \in 1..M.m |-> Tup([j \in 1..M.m |-> IF j \in FinalSet(M) THEN M.tr[i][j] ELSE 0], M.m)], M.m)
 
 ValidModel(M) ==
   /\ SumInts(PiRaw(M), 1, M.m) > 0
   /\ \A i \in 1..M.m : SumInts(M.tr[i], 1, M.m) > 0
-  /\ \A i \in 1..M.m : SumInts(TfRaw(M)[i], 1, M.m) > 0
+  /\ LET f == TfRaw(M) IN \A i \in 1..M.m : SumInts(f[i], 1, M.m) > 0
 
 (* rows of integer weights -> integer matrix over the common denominator den *)
 ScaleRows(raw, m) ==
-  LET rs == [i \in 1..m |-> SumInts(raw[i], 1, m)]
+  LET rs == Tup([i \in 1..m |-> SumInts(raw[i], 1, m)], m)
       L  == LcmOf(rs, 1, m)
-  IN [den |-> L, mat |-> [i \in 1..m |-> [j \in 1..m |-> raw[i][j] * (L \div rs[i])]]]
+  IN [den |-> L, mat |-> Tup([i \in 1..m |-> Tup([j \in 1..m |-> raw[i][j] * (L \div rs[i])], m)], m)]
 
 (* prepared model: everything integer, denominators explicit *)
 Prep(M) ==
@@ -102,11 +104,11 @@ Emit1(P, i, s) == P.em[P.smap[i]][s + 1]               \* state i emits symbol s
 Den(P, n) == P.piden * IPow(P.eden, n) * (IF n = 1 THEN 1 ELSE IPow(P.trden, n - 2) * P.tfden)
 
 (* ------------------------------------------------------------------ CONTRACT *)
-(* hidden paths are numbered 0 .. m^n - 1; the state at position t is the   *)
-(* t-th base-m digit (least significant first) plus one                     *)
+(* hidden paths are numbered 1 .. m^n; the state at position t of path k is *)
+(* the t-th base-m digit (least significant first) of k-1, plus one         *)
 NPaths(m, n) == IPow(m, n)
-StateAt(k, t, m) == ((k \div IPow(m, t - 1)) % m) + 1
-PathOf(k, n, m) == [t \in 1..n |-> StateAt(k, t, m)]
+StateAt(k, t, m) == (((k - 1) \div IPow(m, t - 1)) % m) + 1
+PathOf(k, n, m) == Tup([t \in 1..n |-> StateAt(k, t, m)], n)
 
 RECURSIVE FilterIdx(_, _, _)
 FilterIdx(cond, lo, hi) ==          \* ascending sequence of the k in lo..hi with cond[k]
@@ -119,23 +121,25 @@ FilterIdx(cond, lo, hi) ==          \* ascending sequence of the k in lo..hi wit
 (*   pair[t][i][j]  the paths with states i, j at positions t, t+1         *)
 Tables(m, n) ==
   LET np == NPaths(m, n)
-      ps == [k \in 0..(np - 1) |-> PathOf(k, n, m)]
+      ps == Tup([k \in 1..np |-> PathOf(k, n, m)], np)
   IN [paths |-> ps,
-      sel   |-> [t \in 1..n |-> [i \in 1..m |->
-                  FilterIdx([k \in 0..(np - 1) |-> ps[k][t] = i], 0, np - 1)]],
-      pair  |-> [t \in 1..(n - 1) |-> [i \in 1..m |-> [j \in 1..m |->
-                  FilterIdx([k \in 0..(np - 1) |-> ps[k][t] = i /\ ps[k][t + 1] = j], 0, np - 1)]]]]
+      sel   |-> Tup([t \in 1..n |-> Tup([i \in 1..m |->
+                  FilterIdx(Tup([k \in 1..np |-> ps[k][t] = i], np), 1, np)], m)], n),
+      pair  |-> Tup([t \in 1..(n - 1) |-> Tup([i \in 1..m |-> Tup([j \in 1..m |->
+                  FilterIdx(Tup([k \in 1..np |-> ps[k][t] = i /\ ps[k][t + 1] = j], np), 1, np)], m)], m)], n - 1)]
 
 (* weight (numerator over Den) of every path: the product of its factors *)
 RECURSIVE ProdPath(_, _, _)
 ProdPath(G, p, t) == IF t > Len(p) THEN 1 ELSE G[t][p[t - 1]][p[t]] * ProdPath(G, p, t + 1)
 PathWeights(P, x, T) ==
   LET n  == Len(x)
-      g1 == [i \in 1..P.m |-> P.pi[i] * Emit1(P, i, x[1])]
-      G  == [t \in 1..n |-> IF t = 1 THEN <<>>
-                            ELSE LET Tm == TMat(P, n, t)
-                                 IN [i \in 1..P.m |-> [j \in 1..P.m |-> Tm[i][j] * Emit1(P, j, x[t])]]]
-  IN [k \in 0..(NPaths(P.m, n) - 1) |-> LET p == T.paths[k] IN g1[p[1]] * ProdPath(G, p, 2)]
+      m  == P.m
+      g1 == Tup([i \in 1..m |-> P.pi[i] * Emit1(P, i, x[1])], m)
+      G  == Tup([t \in 1..n |-> IF t = 1 THEN <<>>
+                 ELSE LET Tm == TMat(P, n, t)
+                      IN Tup([i \in 1..m |-> Tup([j \in 1..m |-> Tm[i][j] * Emit1(P, j, x[t])], m)], m)], n)
+      np == NPaths(m, n)
+  IN Tup([k \in 1..np |-> LET p == T.paths[k] IN g1[p[1]] * ProdPath(G, p, 2)], np)
 
 RECURSIVE SumAt(_, _, _)
 SumAt(pw, idx, r) == IF r > Len(idx) THEN 0 ELSE pw[idx[r]] + SumAt(pw, idx, r + 1)
@@ -154,10 +158,10 @@ AlphaRec(P, x, t, acc) ==
   IF t > Len(x) THEN acc
   ELSE LET prev == acc[t - 1]
            T    == TMat(P, Len(x), t)
-           row  == [j \in 1..P.m |->
-                      Emit1(P, j, x[t]) * SumInts([i \in 1..P.m |-> T[i][j] * prev[i]], 1, P.m)]
+           row  == Tup([j \in 1..P.m |->
+                      Emit1(P, j, x[t]) * SumInts([i \in 1..P.m |-> T[i][j] * prev[i]], 1, P.m)], P.m)
        IN AlphaRec(P, x, t + 1, Push(acc, row))
-Alpha(P, x) == AlphaRec(P, x, 2, << [i \in 1..P.m |-> P.pi[i] * Emit1(P, i, x[1])] >>)
+Alpha(P, x) == AlphaRec(P, x, 2, << Tup([i \in 1..P.m |-> P.pi[i] * Emit1(P, i, x[1])], P.m) >>)
 
 (* backward: beta[n][i] = 1, beta[t][i] = SUM_j T_{t+1}(i,j) e(j,x_{t+1}) beta[t+1][j];  *)
 (* acc holds the rows t+1..n                                                             *)
@@ -166,10 +170,10 @@ BetaRec(P, x, t, acc) ==
   IF t < 1 THEN acc
   ELSE LET next == acc[1]
            T    == TMat(P, Len(x), t + 1)
-           row  == [i \in 1..P.m |->
-                      SumInts([j \in 1..P.m |-> T[i][j] * Emit1(P, j, x[t + 1]) * next[j]], 1, P.m)]
+           row  == Tup([i \in 1..P.m |->
+                      SumInts([j \in 1..P.m |-> T[i][j] * Emit1(P, j, x[t + 1]) * next[j]], 1, P.m)], P.m)
        IN BetaRec(P, x, t - 1, Unshift(row, acc))
-Beta(P, x) == BetaRec(P, x, Len(x) - 1, << [i \in 1..P.m |-> 1] >>)
+Beta(P, x) == BetaRec(P, x, Len(x) - 1, << Tup([i \in 1..P.m |-> 1], P.m) >>)
 
 (* forward pass restricted to the state sets q[1..n] (statistics/generic/hmm.go Posterior) *)
 RECURSIVE AlphaQRec(_, _, _, _, _)
@@ -177,44 +181,45 @@ AlphaQRec(P, x, q, t, acc) ==
   IF t > Len(x) THEN acc
   ELSE LET prev == acc[t - 1]
            T    == TMat(P, Len(x), t)
-           row  == [j \in 1..P.m |->
+           row  == Tup([j \in 1..P.m |->
                       IF j \in q[t]
                       THEN Emit1(P, j, x[t]) *
                            SumInts([i \in 1..P.m |-> IF i \in q[t - 1] THEN T[i][j] * prev[i] ELSE 0], 1, P.m)
-                      ELSE 0]
+                      ELSE 0], P.m)
        IN AlphaQRec(P, x, q, t + 1, Push(acc, row))
 AlphaQ(P, x, q) ==
-  AlphaQRec(P, x, q, 2, << [i \in 1..P.m |-> IF i \in q[1] THEN P.pi[i] * Emit1(P, i, x[1]) ELSE 0] >>)
+  AlphaQRec(P, x, q, 2, << Tup([i \in 1..P.m |-> IF i \in q[1] THEN P.pi[i] * Emit1(P, i, x[1]) ELSE 0], P.m) >>)
 
 (* Viterbi: delta[t][j] = e(j,x_t) max_i T_t(i,j) delta[t-1][i], psi[t][j] = first arg max *)
 RECURSIVE ViterbiRec(_, _, _, _, _)
 ViterbiRec(P, x, t, delta, psi) ==
   IF t > Len(x) THEN [delta |-> delta, psi |-> psi]
   ELSE LET prev == delta[t - 1]
+           m    == P.m
            T    == TMat(P, Len(x), t)
-           cand == [j \in 1..P.m |-> [i \in 1..P.m |-> T[i][j] * prev[i]]]
-           best == [j \in 1..P.m |-> MaxInts(cand[j], 1, P.m)]
-           drow == [j \in 1..P.m |-> Emit1(P, j, x[t]) * best[j]]
-           prow == [j \in 1..P.m |-> FirstArgMax(cand[j], 1, P.m, best[j])]
+           cand == Tup([j \in 1..m |-> Tup([i \in 1..m |-> T[i][j] * prev[i]], m)], m)
+           best == Tup([j \in 1..m |-> MaxInts(cand[j], 1, m)], m)
+           drow == Tup([j \in 1..m |-> Emit1(P, j, x[t]) * best[j]], m)
+           prow == Tup([j \in 1..m |-> FirstArgMax(cand[j], 1, m, best[j])], m)
        IN ViterbiRec(P, x, t + 1, Push(delta, drow), Push(psi, prow))
 RECURSIVE BackTrack(_, _, _)
 BackTrack(psi, t, path) ==     \* path holds the states of positions t..n
   IF t = 1 THEN path ELSE BackTrack(psi, t - 1, Unshift(psi[t][path[1]], path))
 ViterbiMech(P, x) ==
   LET n  == Len(x)
-      v  == ViterbiRec(P, x, 2, << [i \in 1..P.m |-> P.pi[i] * Emit1(P, i, x[1])] >>,
-                                << [i \in 1..P.m |-> 1] >>)
+      v  == ViterbiRec(P, x, 2, << Tup([i \in 1..P.m |-> P.pi[i] * Emit1(P, i, x[1])], P.m) >>,
+                                << Tup([i \in 1..P.m |-> 1], P.m) >>)
       mx == MaxInts(v.delta[n], 1, P.m)
       e  == FirstArgMax(v.delta[n], 1, P.m, mx)
   IN [w |-> mx, path |-> BackTrack(v.psi, n, <<e>>)]
 
-(* index of a path given as a sequence of states *)
+(* number of a path given as a sequence of states *)
 RECURSIVE PathIndexRec(_, _, _)
 PathIndexRec(p, t, m) == IF t > Len(p) THEN 0 ELSE (p[t] - 1) + m * PathIndexRec(p, t + 1, m)
-PathIndex(p, m) == PathIndexRec(p, 1, m)
+PathIndex(p, m) == PathIndexRec(p, 1, m) + 1
 
 (* ------------------------------------------------- the solved sequence record *)
-(* exact floor(num * 2^bits / den) for 0 <= num <= den < 2^30 without overflow  *)
+(* exact floor(num * 2^bits / den) for 0 <= num, 0 < den < 2^30 without overflow *)
 RECURSIVE FloorScaledRec(_, _, _, _)
 FloorScaledRec(q, r, den, bits) ==
   IF bits = 0 THEN q
@@ -229,9 +234,9 @@ FloorScaled(num, den, bits) == FloorScaledRec(num \div den, num % den, den, bits
 RatPair(num, den) == LET r == Rat(num, den) IN <<r.n, r.d>>
 
 (* the state-set sequences whose posterior is reported: built from two sets A, B *)
-QAlt(A, B, n)  == [t \in 1..n |-> IF t % 2 = 1 THEN A ELSE B]       \* A,B,A,B,..
-QLast(A, B, n) == [t \in 1..n |-> IF t = n THEN A ELSE B]           \* B,..,B,A
-QEnds(A, B, n, m) == [t \in 1..n |-> IF t = 1 THEN A ELSE IF t = n THEN B ELSE 1..m]
+QAlt(A, B, n)  == Tup([t \in 1..n |-> IF t % 2 = 1 THEN A ELSE B], n)       \* A,B,A,B,..
+QLast(A, B, n) == Tup([t \in 1..n |-> IF t = n THEN A ELSE B], n)           \* B,..,B,A
+QEnds(A, B, n, m) == Tup([t \in 1..n |-> IF t = 1 THEN A ELSE IF t = n THEN B ELSE 1..m], n)
 QList(A, B, n, m) == << QAlt(A, B, n), QLast(A, B, n), QEnds(A, B, n, m) >>
 
 (* Everything the contract says about one observation sequence, and the    *)
@@ -242,22 +247,22 @@ Solve(P, x, A, B, finalSet, T) ==
       np   == NPaths(m, n)
       pw   == PathWeights(P, x, T)
       den  == Den(P, n)
-      lik  == SumInts(pw, 0, np - 1)
-      mnum == [t \in 1..n |-> [i \in 1..m |-> SumAt(pw, T.sel[t][i], 1)]]   \* P(y_t = i, x)
+      lik  == SumInts(pw, 1, np)
+      mnum == Tup([t \in 1..n |-> Tup([i \in 1..m |-> SumAt(pw, T.sel[t][i], 1)], m)], n)   \* P(y_t = i, x)
       al   == Alpha(P, x)
       be   == Beta(P, x)
-      mx   == MaxInts(pw, 0, np - 1)
-      vset == {k \in 0..(np - 1) : pw[k] = mx}
+      mx   == MaxInts(pw, 1, np)
+      vset == {k \in 1..np : pw[k] = mx}
       vm   == ViterbiMech(P, x)
       qs   == QList(A, B, n, m)
-      qnum == [r \in 1..Len(qs) |-> SetSeqNum(pw, qs[r], m, 1, 0, 1)]
-      aq   == [r \in 1..Len(qs) |-> AlphaQ(P, x, qs[r])]
+      qnum == Tup([r \in 1..Len(qs) |-> SetSeqNum(pw, qs[r], m, 1, 1, 1)], Len(qs))
+      aq   == Tup([r \in 1..Len(qs) |-> AlphaQ(P, x, qs[r])], Len(qs))
       (* expected transition counts SUM_t P(y_t = i, y_{t+1} = j, x); the   *)
       (* Baum-Welch step of the library leaves out the last transition when *)
       (* a final set is given                                               *)
       tmax == IF finalSet = {} THEN n - 1 ELSE n - 2
-      xnum == [i \in 1..m |-> [j \in 1..m |->
-                 SumInts([t \in 1..tmax |-> SumAt(pw, T.pair[t][i][j], 1)], 1, tmax)]]
+      xnum == Tup([i \in 1..m |-> Tup([j \in 1..m |->
+                 SumInts([t \in 1..tmax |-> SumAt(pw, T.pair[t][i][j], 1)], 1, tmax)], m)], m)
       mech == /\ SumInts(al[n], 1, m) = lik
               /\ \A t \in 1..n : \A i \in 1..m : al[t][i] * be[t][i] = mnum[t][i]
               /\ \A t \in 1..n : SumInts(mnum[t], 1, m) = lik          \* marginals sum to one
@@ -270,9 +275,9 @@ Solve(P, x, A, B, finalSet, T) ==
            lik  |-> RatPair(lik, den),          \* P(x), normalised
            L    |-> lik,                        \* its numerator over Den: the common denominator of all ratios below
            marg |-> mnum,                                               \* P(y_t = i | x) = marg[t][i] / L
-           qs   |-> [r \in 1..Len(qs) |-> [q |-> qs[r], p |-> qnum[r]]],  \* P(y \in q | x) = p / L
+           qs   |-> Tup([r \in 1..Len(qs) |-> [q |-> qs[r], p |-> qnum[r]]], Len(qs)),  \* P(y \in q | x) = p / L
            vit  |-> [w |-> RatPair(mx, den), set |-> vset, mech |-> vm.path],
-           cls  |-> [s |-> A, p |-> [t \in 1..n |-> SumInts([i \in 1..m |-> IF i \in A THEN mnum[t][i] ELSE 0], 1, m)]],
+           cls  |-> [s |-> A, p |-> Tup([t \in 1..n |-> SumInts([i \in 1..m |-> IF i \in A THEN mnum[t][i] ELSE 0], 1, m)], n)],
            xi   |-> xnum]                                               \* E[#(i -> j) | x] = xi[i][j] / L
 
 (* ------------------------------------------------------------------ MIXTURE *)
